@@ -3,66 +3,224 @@ package c18
 import (
 	"os"
 	"regexp"
-	"strings"
+	"time"
 
 	"github.com/prometheus/prometheus/model/labels"
+	"github.com/prometheus/prometheus/model/value"
+	"github.com/prometheus/prometheus/promql/parser"
 )
 
-// knownClass names the known-finding class a generated query falls into ("" = none). Queries of such a class are
-// left out of the generated campaigns (counted as excluded); each class has a replay under replays/C18/.
-func knownClass(d *DataJ, q QueryJ, g *exprGen) string {
+// selUse is one selector of an expression with its context.
+type selUse struct {
+	vs     *parser.VectorSelector
+	metric string
+	rng    int64  // ms, 0 = instant vector selector
+	off    int64  // ms
+	fn     string // function applied directly to the range vector ("" otherwise)
+}
+
+func selectorsOf(expr parser.Expr) []selUse {
+	var out []selUse
+	parser.Inspect(expr, func(node parser.Node, path []parser.Node) error {
+		vs, ok := node.(*parser.VectorSelector)
+		if !ok {
+			return nil
+		}
+		u := selUse{vs: vs, metric: vs.Name, off: int64(vs.OriginalOffset / time.Millisecond)}
+		for _, m := range vs.LabelMatchers {
+			if m.Name == "__name__" && m.Type == labels.MatchEqual {
+				u.metric = m.Value
+			}
+		}
+		if n := len(path); n > 0 {
+			if ms, ok := path[n-1].(*parser.MatrixSelector); ok {
+				u.rng = int64(ms.Range / time.Millisecond)
+				if n > 1 {
+					if c, ok := path[n-2].(*parser.Call); ok {
+						u.fn = c.Func.Name
+					}
+				}
+			}
+		}
+		out = append(out, u)
+		return nil
+	})
+	return out
+}
+
+// recordsOf splits the samples of a series the way the storage holds them in the generated layouts: one record per
+// (shard group, file | memtable).
+func recordsOf(d *DataJ, se *SeriesJ) [][]SampleJ {
+	var cut []int64
+	if d.Flush == 2 {
+		var lo, hi int64 = 1 << 62, -(1 << 62)
+		for _, s := range d.Series {
+			for _, p := range s.Samples {
+				lo, hi = min(lo, p.T), max(hi, p.T)
+			}
+		}
+		cut = append(cut, lo+(hi-lo)/2+1) // first timestamp of the second part
+	}
+	const week = int64(7 * 24 * 3600 * 1000)
+	if b := (d.Base/week + 1) * week; b-d.Base < 4*3600*1000 {
+		cut = append(cut, b-d.Base)
+	}
+	part := func(t int64) int {
+		n := 0
+		for i, c := range cut {
+			if t >= c {
+				n |= 1 << i
+			}
+		}
+		return n
+	}
+	var recs [][]SampleJ
+	var cur []SampleJ
+	last := -1
+	for _, p := range se.Samples {
+		k := part(p.T)
+		if k != last && len(cur) > 0 {
+			recs = append(recs, cur)
+			cur = nil
+		}
+		last = k
+		cur = append(cur, p)
+	}
+	if len(cur) > 0 {
+		recs = append(recs, cur)
+	}
+	return recs
+}
+
+var gapFns = map[string]bool{"avg_over_time": true, "min_over_time": true, "max_over_time": true, "sum_over_time": true, "count_over_time": true, "last_over_time": true}
+
+// knownClass names the known-finding class a query falls into ("" = none). Queries of such a class are left out of the
+// generated campaigns (counted as excluded); each class has a replay under replays/C18/.
+func knownClass(d *DataJ, q QueryJ) string {
 	if os.Getenv("C18_NO_EXCLUSIONS") != "" {
 		return ""
 	}
-	for _, m := range g.matchers {
-		// K1: a matcher with an empty value is dropped by the translation (selector.go: `if len(item.Value) == 0 { continue }`)
-		if m.Value == "" {
-			return "matcher_with_empty_value"
-		}
-		// K3: a matcher on a label name that no series of the selected metric carries is ignored, although it does not
-		// match the empty string (upstream: no series)
-		if mt, err := labels.NewMatcher(matchType(m.Op), m.Label, m.Value); err == nil && !mt.Matches("") {
-			has := false
-			for _, s := range d.Series {
-				if s.Labels["__name__"] == m.Metric && s.Labels[m.Label] != "" {
-					has = true
-				}
-			}
-			if !has {
-				return "matcher_on_label_unknown_to_metric"
-			}
-		}
-		// K2: regex matchers are compiled unanchored; excluded when, for a value of that label present in the sample set
-		// (or the empty string of a series without the label), substring match and full match differ
-		if m.Op == "=~" || m.Op == "!~" {
-			un, err1 := regexp.Compile(m.Value)
-			an, err2 := regexp.Compile("^(?:" + m.Value + ")$")
-			if err1 != nil || err2 != nil {
+	expr, err := parser.ParseExpr(q.Expr)
+	if err != nil {
+		return ""
+	}
+	sels := selectorsOf(expr)
+	for _, u := range sels {
+		for _, m := range u.vs.LabelMatchers {
+			if m.Name == "__name__" {
 				continue
 			}
-			vals := map[string]bool{}
-			for _, s := range d.Series {
-				vals[s.Labels[m.Label]] = true
+			// K1: a matcher with an empty value is dropped by the translation
+			if m.Value == "" {
+				return "matcher_with_empty_value"
 			}
-			for v := range vals {
-				if un.MatchString(v) != an.MatchString(v) {
-					return "regex_matcher_unanchored"
+			// K3: a matcher on a label name that no series of the selected metric carries is ignored, although it
+			// does not match the empty string (upstream: no series)
+			if !m.Matches("") {
+				has := false
+				for _, s := range d.Series {
+					if s.Labels["__name__"] == u.metric && s.Labels[m.Name] != "" {
+						has = true
+					}
+				}
+				if !has {
+					return "matcher_on_label_unknown_to_metric"
+				}
+			}
+			// K2: regex matchers are compiled unanchored; excluded when, for a value of that label in the sample set
+			// (or the empty string of a series without the label), substring match and full match differ
+			if m.Type == labels.MatchRegexp || m.Type == labels.MatchNotRegexp {
+				un, err := regexp.Compile(m.Value)
+				if err != nil {
+					continue
+				}
+				for _, s := range d.Series {
+					v := s.Labels[m.Name]
+					full := m.Matches(v)
+					if m.Type == labels.MatchNotRegexp {
+						full = !full
+					}
+					if un.MatchString(v) != full {
+						return "regex_matcher_unanchored"
+					}
 				}
 			}
 		}
 	}
-	_ = strings.Contains
-	return ""
-}
-
-func matchType(op string) labels.MatchType {
-	switch op {
-	case "=":
-		return labels.MatchEqual
-	case "!=":
-		return labels.MatchNotEqual
-	case "=~":
-		return labels.MatchRegexp
+	// K6: a stored record of a series holds nothing but staleness markers (e.g. the marker is in the memtable, the
+	// samples are in a file): range functions lose the neighbouring record's windows or never answer
+	for _, u := range sels {
+		if u.rng == 0 {
+			continue
+		}
+		for si := range d.Series {
+			se := &d.Series[si]
+			if se.Labels["__name__"] != u.metric {
+				continue
+			}
+			recs := recordsOf(d, se)
+			if len(recs) < 2 {
+				continue
+			}
+			for _, rec := range recs {
+				only := true
+				for _, p := range rec {
+					if p.V != "stale" {
+						only = false
+					}
+				}
+				if only {
+					return "record_of_only_staleness_markers"
+				}
+			}
+		}
 	}
-	return labels.MatchNotRegexp
+	if q.Step > 0 {
+		steps := q.steps()
+		for _, u := range sels {
+			if u.rng == 0 || q.Step <= u.rng {
+				continue
+			}
+			for si := range d.Series {
+				se := &d.Series[si]
+				if se.Labels["__name__"] != u.metric {
+					continue
+				}
+				recs := recordsOf(d, se)
+				for ri, rec := range recs {
+					// samples fetched by the query and not staleness markers
+					var ts []int64
+					for _, p := range rec {
+						t := p.T + u.off
+						if t >= steps[0]-u.rng && t <= steps[len(steps)-1] && !value.IsStaleNaN(p.Float()) {
+							ts = append(ts, t)
+						}
+					}
+					if len(ts) == 0 {
+						continue
+					}
+					// K4: every fetched sample of a stored record lies in the same gap between two evaluation windows
+					if gapFns[u.fn] {
+						for k := 0; k+1 < len(steps); k++ {
+							if ts[0] > steps[k] && ts[len(ts)-1] < steps[k+1]-u.rng {
+								return "all_samples_of_a_record_between_two_windows"
+							}
+						}
+					}
+					// K5: a window spans two stored records of the series and the first sample of the second record
+					// lies exactly on the evaluation timestamp (not the first one)
+					if ri > 0 {
+						prev := recs[ri-1]
+						pt := prev[len(prev)-1].T + u.off
+						for k := 1; k < len(steps); k++ {
+							if ts[0] == steps[k] && pt >= steps[k]-u.rng && rec[0].T+u.off == ts[0] {
+								return "window_spans_two_records_second_starts_on_step"
+							}
+						}
+					}
+				}
+			}
+		}
+	}
+	return ""
 }
